@@ -110,7 +110,12 @@ def gen_case(rng, max_m=1000, small=False, weaver=False):
     elif yc == "large":
         y_ref = y_ref / max(np.max(np.abs(y_ref)), 1e-300) * 5e8
     alpha = float(ALPHAS[int(rng.integers(0, 5))]) if rng.integers(0, 4) else float(rng.uniform(0.1, 6.0))
-    case = {"x": x, "y": y, "x_ref": x_ref, "y_ref": y_ref, "idx": idx, "mode": mode, "strategy": strategy,
+    perm = None
+    if mode != "search" and rng.integers(0, 3) == 0:
+        perm = [int(v) for v in rng.permutation(K)]
+        if rng.integers(0, 2) and K + 1 <= m:
+            perm.append(int(rng.integers(0, K)))          # one fixed point listed twice
+    case = {"x": x, "y": y, "x_ref": x_ref, "y_ref": y_ref, "idx": idx, "mode": mode, "strategy": strategy, "perm": perm,
             "on_grid": on_grid, "extras": extras, "alpha": alpha,
             "target_rule": RULES[int(rng.integers(0, 2))], "ref_rule": RULES[int(rng.integers(0, 2))],
             "xcls": xc, "ycls": yc, "m": m, "K": K, "weaver": bool(weaver)}
@@ -124,10 +129,19 @@ def call_args(case, containers=None):
     if case["mode"] == "search":
         kw["fixed_points_finding_strategy"] = case["strategy"]
     elif case["mode"] == "positions":
-        kw["fixed_points_in_x"] = [float(case["x"][i]) for i in case["idx"]]
+        kw["fixed_points_in_x"] = [float(case["x"][i]) for i in _order(case)]
     else:
-        kw["fixed_points_indices_in_x"] = list(case["idx"])
+        kw["fixed_points_indices_in_x"] = list(_order(case))
     return kw
+
+
+def _order(case):
+    """explicitly given fixed points are a SET: the caller may list them in any order and repeat some"""
+    idx = list(case["idx"])
+    perm = case.get("perm")
+    if perm:
+        idx = [idx[j] for j in perm]
+    return idx
 
 
 # ------------------------------------------------------------------------------------------ oracle side
@@ -262,7 +276,7 @@ def judge_c03(ctx, cid, case, res, fi, ri):
 
 def brief(case):
     d = {k: case[k] for k in ("mode", "strategy", "on_grid", "extras", "alpha", "target_rule", "ref_rule", "xcls",
-                              "ycls", "m", "K", "idx", "weaver") if k in case}
+                              "ycls", "m", "K", "idx", "weaver", "perm") if k in case}
     if case["m"] <= 24:
         d.update({"x": case["x"], "y": case["y"], "x_ref": case["x_ref"], "y_ref": case["y_ref"]})
     return d
